@@ -10,12 +10,12 @@ from vcheck import log
 
 # (family, runs, steps)
 PLANS = {
-    "C01": dict(models=dict(quick=[("MC_HRaft.tla", "MC_Election_q.cfg", 300)], thorough=[("MC_HRaft.tla", "MC_Election.cfg", 900), ("MC_HRaft.tla", "MC_Crash.cfg", 900)]), families=dict(quick=[("chaos", 24, 500), ("elect", 24, 400)], thorough=[("chaos", 160, 800), ("elect", 200, 600), ("member", 80, 500)])),
+    "C01": dict(models=dict(quick=[("MC_HRaft.tla", "MC_Election_q.cfg", 300)], thorough=[("MC_HRaft.tla", "MC_Election.cfg", 900), ("MC_HRaft.tla", "MC_Crash.cfg", 900)]), families=dict(quick=[("chaos", 24, 500), ("elect", 24, 400), ("voterestart", 8, 0), ("stalerepl", 4, 0)], thorough=[("chaos", 160, 800), ("elect", 200, 600), ("member", 80, 500), ("voterestart", 48, 0), ("stalerepl", 24, 0)])),
     "C02": dict(models=dict(quick=[("MC_HRaft.tla", "MC_Replication_q.cfg", 300)], thorough=[("MC_HRaft.tla", "MC_Replication.cfg", 900), ("MC_HRaft.tla", "MC_Snapshot_q.cfg", 900)]), families=dict(quick=[("chaos", 16, 500), ("snap", 24, 500), ("client", 8, 400), ("restoreinflight", 12, 0), ("dupis", 9, 500), ("snapcfgrace", 16, 0), ("staleprefix", 4, 0)], thorough=[("chaos", 120, 800), ("snap", 200, 800), ("client", 80, 600), ("restart", 80, 600), ("restoreinflight", 96, 0), ("restore", 60, 500), ("dupis", 48, 500), ("snapcfgrace", 96, 0), ("snapmember", 60, 500), ("staleprefix", 32, 0)])),
-    "C03": dict(models=dict(quick=[("MC_HRaft.tla", "MC_Replication_q.cfg", 300)], thorough=[("MC_HRaft.tla", "MC_Replication.cfg", 900), ("MC_HRaft.tla", "MC_Crash.cfg", 900)]), families=dict(quick=[("chaos", 24, 500), ("restart", 16, 400), ("figure8", 24, 0), ("dupis", 9, 500)], thorough=[("chaos", 200, 800), ("restart", 120, 600), ("member", 60, 500), ("figure8", 64, 0), ("dupis", 48, 500)])),
+    "C03": dict(models=dict(quick=[("MC_HRaft.tla", "MC_Replication_q.cfg", 300)], thorough=[("MC_HRaft.tla", "MC_Replication.cfg", 900), ("MC_HRaft.tla", "MC_Crash.cfg", 900)]), families=dict(quick=[("chaos", 24, 500), ("restart", 16, 400), ("figure8", 24, 0), ("dupis", 9, 500), ("stalerepl", 6, 0)], thorough=[("chaos", 200, 800), ("restart", 120, 600), ("member", 60, 500), ("figure8", 64, 0), ("dupis", 48, 500), ("stalerepl", 32, 0)])),
     "C04": dict(models=dict(quick=[], thorough=[("MC_HRaft.tla", "MC_Replication.cfg", 900)]), families=dict(quick=[("chaos", 16, 500), ("snap", 12, 400)], thorough=[("chaos", 200, 800), ("snap", 120, 600), ("restart", 80, 600)]), suites=["l2:ae"]),
     "C05": dict(models=dict(quick=[("MC_HRaft.tla", "MC_Replication_q.cfg", 300)], thorough=[("MC_HRaft.tla", "MC_Replication.cfg", 900), ("MC_HRaft.tla", "MC_Membership.cfg", 1200)]), families=dict(quick=[("chaos", 20, 500), ("member", 16, 400), ("figure8", 8, 0), ("dupis", 9, 500)], thorough=[("chaos", 160, 800), ("member", 120, 600), ("figure8", 64, 0), ("dupis", 48, 500)]), suites=["l1:commitment"]),
-    "C06": dict(models=dict(quick=[("MC_HRaft.tla", "MC_Crash_q.cfg", 300)], thorough=[("MC_HRaft.tla", "MC_Crash.cfg", 900), ("MC_HRaft.tla", "MC_Election.cfg", 900)]), families=dict(quick=[("elect", 16, 400)], thorough=[("elect", 240, 600), ("chaos", 80, 600)]), suites=["l2:vote", "l2:vote2", "l2:vote3"]),
+    "C06": dict(models=dict(quick=[("MC_HRaft.tla", "MC_Crash_q.cfg", 300)], thorough=[("MC_HRaft.tla", "MC_Crash.cfg", 900), ("MC_HRaft.tla", "MC_Election.cfg", 900)]), families=dict(quick=[("elect", 16, 400), ("voterestart", 6, 0)], thorough=[("elect", 240, 600), ("chaos", 80, 600), ("voterestart", 32, 0)]), suites=["l2:vote", "l2:vote2", "l2:vote3"]),
     "C07": dict(models=dict(quick=[("MC_HRaft.tla", "MC_Membership_q.cfg", 300)], thorough=[("MC_HRaft.tla", "MC_Membership.cfg", 1200)]), families=dict(quick=[("member", 24, 400), ("cfgtrunc", 8, 0), ("snapmember", 8, 400)], thorough=[("member", 240, 600), ("cfgtrunc", 32, 0), ("snapmember", 80, 500)]), suites=["l1:configuration"]),
     "C08": dict(families=dict(quick=[("client", 32, 400)], thorough=[("client", 240, 600), ("chaos", 80, 600)])),
     "C09": dict(families=dict(quick=[("verify", 32, 400), ("member", 8, 400)], thorough=[("verify", 240, 600), ("member", 80, 500)])),
